@@ -761,4 +761,8 @@ instance : PEq OpKind := ⟨fun a b => a == b⟩
 
 /-! ## ---- end of the tree-builder extension (T2) ---- -/
 
+/-! ### phase 6 -/
+/-- `Iterator::filter_map` (an iterator is the list of its items) -/
+def filter_map (l : List α) (f : α → Option β) : List β := l.filterMap f
+
 end Evalexpr.Rs
